@@ -116,10 +116,13 @@ func main() {
 	}
 	g := gethFacts(repo)
 
-	fmt.Printf("Definition current_facts : facts := {|\n  f_funtoken := funtoken_facts;\n  f_wasm := wasm_facts;\n  f_oracle := oracle_facts;\n")
-	fmt.Printf("  f_len_guard := %s;\n  f_denom_guard := %s;\n  f_amount_guard := %s;\n  f_local_meter := %s;\n  f_oog_only := %s;\n  f_direct_ro := %s;\n  f_call_inherits_static := %s |}.\n",
-		CoqBool(lenGuard), CoqBool(denomGuard), CoqBool(amountGuard), CoqBool(localMeter), CoqBool(oogOnly),
-		CoqBool(g.directRO), CoqBool(g.callInherits))
+	evmDenomGuard := sendToEvmDenomGuard(methodsOf["precompileFunToken.sendToEvm"])
+	erc20NulGuard := getErc20NulGuard(methodsOf["precompileFunToken.parseArgsGetErc20Address"])
+	fmt.Printf("Definition current_guards : panic_guards := {|\n  g_len := %s;\n  g_denom := %s;\n  g_amount := %s;\n  g_evm_denom := %s;\n  g_erc20_nul := %s |}.\n",
+		CoqBool(lenGuard), CoqBool(denomGuard), CoqBool(amountGuard), CoqBool(evmDenomGuard), CoqBool(erc20NulGuard))
+	fmt.Printf("Definition current_facts : facts := {|\n  f_funtoken := funtoken_facts;\n  f_wasm := wasm_facts;\n  f_oracle := oracle_facts;\n  f_guards := current_guards;\n")
+	fmt.Printf("  f_local_meter := %s;\n  f_oog_only := %s;\n  f_direct_ro := %s;\n  f_call_inherits_static := %s |}.\n",
+		CoqBool(localMeter), CoqBool(oogOnly), CoqBool(g.directRO), CoqBool(g.callInherits))
 	fmt.Printf("(* geth fork %s: read-only argument of RunPrecompiledContract per wrapper; RequiredGas charged before Run *)\n", g.dir)
 	fmt.Printf("Definition geth_readonly_args : list (string * string) := [%s].\n", g.pairs)
 	fmt.Printf("Definition geth_charges_required_gas_first : bool := %s.\n", CoqBool(g.chargesFirst))
@@ -562,6 +565,49 @@ func bankMsgSendGuards(fd *ast.FuncDecl) (denom, amount bool) {
 		}
 	}
 	return
+}
+
+// sendToEvm: if err := sdk.ValidateDenom(bankDenom); err != nil { return … } before the index lookup
+func sendToEvmDenomGuard(fd *ast.FuncDecl) bool {
+	if fd == nil || fd.Body == nil {
+		return false
+	}
+	lookup := token.NoPos
+	ast.Inspect(fd.Body, func(n ast.Node) bool {
+		if c, ok := n.(*ast.CallExpr); ok && strings.HasSuffix(Nospace(c.Fun), ".ExactMatch") && lookup == token.NoPos {
+			lookup = c.Pos()
+		}
+		return true
+	})
+	if lookup == token.NoPos {
+		return true
+	}
+	for _, s := range fd.Body.List {
+		is, ok := s.(*ast.IfStmt)
+		if ok && is.Pos() < lookup && is.Init != nil && Nospace(is.Init) == "err:=sdk.ValidateDenom(bankDenom)" &&
+			Nospace(is.Cond) == "err!=nil" && returnsInside(is.Body) {
+			return true
+		}
+	}
+	return false
+}
+
+// parseArgsGetErc20Address: if strings.ContainsRune(bankDenom, 0) { …; return } at the top level,
+// before the ValidateDenom / tokenfactory fallback
+func getErc20NulGuard(fd *ast.FuncDecl) bool {
+	if fd == nil || fd.Body == nil {
+		return false
+	}
+	for _, s := range fd.Body.List {
+		if is, ok := s.(*ast.IfStmt); ok && is.Init == nil && Nospace(is.Cond) == "strings.ContainsRune(bankDenom,0)" && returnsInside(is.Body) {
+			// the error must be set before returning
+			return strings.Contains(Nospace(is.Body), "err=")
+		}
+		if is, ok := s.(*ast.IfStmt); ok && strings.Contains(Nospace(is), "ValidateDenom") {
+			return false // the fallback comes first
+		}
+	}
+	return false
 }
 
 // ---------------------------------------------------------------- go-ethereum fork
